@@ -1,5 +1,6 @@
 import Driver.Proto
 import Gotree.Model.C17
+import Gotree.Model.C17Cli
 import Gotree.Spec.C17
 
 namespace Gotree.Driver.C17
@@ -259,6 +260,40 @@ def handle (op : String) (f : List String) : Verdict :=
     match T.undump before, rl with
     | some t, some rl => handleCLI t out rl
     | _, _ => bad "C17.cli fields"
+  | "glue", [variant, _req, before, out, crashed, recs, _stderr] =>
+    let rl : Option (List (String × String)) := (splitTerm "|" recs).mapM fun s =>
+      match s.splitOn ";" with
+      | [st, d, _] => some (st, d)
+      | _ => none
+    match T.undump before, rl with
+    | some t, some rl =>
+      let gtags := ["cli", "glue", "glue-" ++ variant]
+      if crashed != "nopanic" then ⟨.oracle, gtags, "gotree nni crashed (panic in stderr)"⟩
+      else if out == "timeout" then ⟨.oracle, gtags, "gotree nni: timeout"⟩
+      else
+      -- the records the reader delivers, as the model sees them
+      let recsIn : List (Option T) := match variant with
+        | "errtree" => [some t, none]
+        | "missing" => []
+        | _ => [some t]
+      let wantErr := variant == "missing" || (cliRun recsIn).2
+      if wantErr && out == "ok" then ⟨.oracle, gtags, "a bad input (missing file, record that is not a tree) is not reported as an error"⟩
+      else if !wantErr && out != "ok" then ⟨.oracle, gtags, "gotree nni: " ++ out⟩
+      else
+        -- on an error `cmd.Execute` prints the message as a last line on standard output
+        let lastIsMsg := match rl.getLast? with | some r => r.1 != "ok" | none => false
+        if wantErr && !lastIsMsg then ⟨.oracle, gtags, "no error message line after the trees"⟩ else
+        let trees := if wantErr then rl.dropLast else rl
+        if variant == "missing" then
+          (if !trees.isEmpty then ⟨.oracle, gtags, "trees written although the input file is missing"⟩ else ⟨.pass, gtags, ""⟩)
+        else
+          -- the trees: as for one tree (`handleCLI` holds oracle and tie)
+          let v := handleCLI t "ok" trees
+          let mlines := cliLines recsIn
+          if v.status == .pass && mlines != rl.length then
+            { v with status := .tie, tags := gtags ++ v.tags, detail := "model writes " ++ toString mlines ++ " lines" }
+          else { v with tags := (gtags ++ v.tags).eraseDups }
+    | _, _ => bad "C17.glue fields"
   | "cli2", [_reqA, _reqB, beforeA, beforeB, out, recs, _stderr] =>
     let rl : Option (List (String × String)) := (splitTerm "|" recs).mapM fun s =>
       match s.splitOn ";" with
